@@ -10,6 +10,7 @@ EXTENDS Naturals, Sequences, SequencesExt, FiniteSets, TLC, Json
 CONSTANTS Keys,            \* record keys per table (recipient ids / prekey ids / group names)
           Vals,            \* distinguishable record contents
           MaxOps,          \* API operations per history
+          EnabledOps,      \* names of the API operations explored in this configuration
           ReplaceInOneTxn  \* TRUE: replace = delete+insert in ONE transaction (claimed)
                            \* FALSE: delete, COMMIT, insert, COMMIT (as read at 4127b7c)
 
@@ -46,6 +47,7 @@ Program(o) ==
     [] o.op = "removePreKey"      -> << Del("prekeys", o.k), Commit >>
     [] o.op = "setAsSent"         -> << MarkSent(o.k), Commit >>
     [] o.op = "setAllAsSent"      -> [i \in 1..Len(KeyOrder) |-> MarkSent(KeyOrder[i])] \o << Commit >>
+    [] o.op = "setSentEnds"       -> << MarkSent(KeyOrder[1]), MarkSent(KeyOrder[Len(KeyOrder)]), Commit >>
     [] o.op = "storeSignedPreKey" -> << Ins("signed", o.k, V(o.v)), Commit >>
     [] o.op = "removeSignedPreKey"-> << Del("signed", o.k), Commit >>
     [] o.op = "storeSenderKey"    -> << Ins("senderkeys", o.k, V(o.v)), Commit >>   \* INSERT OR REPLACE: one statement
@@ -53,7 +55,7 @@ Program(o) ==
 TableOf(o) ==
   CASE o.op \in {"storeSession", "deleteSession"} -> "sessions"
     [] o.op = "saveIdentity" -> "identities"
-    [] o.op \in {"storePreKey", "removePreKey", "setAsSent", "setAllAsSent"} -> "prekeys"
+    [] o.op \in {"storePreKey", "removePreKey", "setAsSent", "setAllAsSent", "setSentEnds"} -> "prekeys"
     [] o.op \in {"storeSignedPreKey", "removeSignedPreKey"} -> "signed"
     [] o.op = "storeSenderKey" -> "senderkeys"
 
@@ -62,11 +64,11 @@ Intended(o, c) ==
   CASE o.op \in {"storeSession", "saveIdentity", "storeSignedPreKey", "storeSenderKey"} -> V(o.v)
     [] o.op = "storePreKey" -> PK(o.v, FALSE)
     [] o.op \in {"deleteSession", "removePreKey", "removeSignedPreKey"} -> Absent
-    [] o.op \in {"setAsSent", "setAllAsSent"} -> IF c = Absent THEN Absent ELSE PK(c[1], TRUE)
+    [] o.op \in {"setAsSent", "setAllAsSent", "setSentEnds"} -> IF c = Absent THEN Absent ELSE PK(c[1], TRUE)
 
 Ops == [op : {"storeSession", "saveIdentity", "storeSignedPreKey", "storeSenderKey", "storePreKey"}, k : Keys, v : Vals]
        \cup [op : {"deleteSession", "removePreKey", "removeSignedPreKey", "setAsSent"}, k : Keys, v : {"none"}]
-       \cup [op : {"setAllAsSent"}, k : {"all"}, v : {"none"}]
+       \cup [op : {"setAllAsSent", "setSentEnds"}, k : {"all"}, v : {"none"}]
 
 \* the UNIQUE columns make a second plain INSERT of an existing key an error: callers never do that
 Allowed(o) ==
@@ -77,9 +79,10 @@ Init == /\ disk = Empty /\ txn = Empty /\ prog = <<>> /\ pc = 0
         /\ before = Empty /\ after = Empty /\ touched = {} /\ nops = 0 /\ act = [name |-> "Init"]
 
 Begin(o) ==
-  /\ prog = <<>> /\ nops < MaxOps /\ Allowed(o)
+  /\ prog = <<>> /\ nops < MaxOps /\ Allowed(o) /\ o.op \in EnabledOps
   /\ prog' = Program(o) /\ pc' = 1 /\ nops' = nops + 1
-  /\ LET t == TableOf(o) ks == IF o.op = "setAllAsSent" THEN Keys ELSE {o.k} IN
+  /\ LET t == TableOf(o) ks == IF o.op = "setAllAsSent" THEN Keys
+                               ELSE IF o.op = "setSentEnds" THEN {KeyOrder[1], KeyOrder[Len(KeyOrder)]} ELSE {o.k} IN
        /\ touched' = { <<t, k>> : k \in ks }
        /\ before' = disk
        /\ after' = [disk EXCEPT ![t] = [k \in Keys |-> IF k \in ks THEN Intended(o, disk[t][k]) ELSE disk[t][k]]]
